@@ -89,7 +89,7 @@ def o5(ctx):
 @rule("C12-O6", "C12", 3, "teardown: Arena::drop decrements the refcount with >= Release, frees only on the 1 -> 0 edge, and an Acquire load or fence on "
       "the refcount dominates Box::from_raw / unmount")
 def o6(ctx):
-    b = ctx.facts.one(r"^<sync::Arena as std::ops::Drop>::drop$")
+    b = ctx.facts.one(r"^<sync::Arena as (?:std|core)::ops::Drop>::drop$")
     ev, res = ctx.eval(b, no_inline=(r"::unmount$",))
     subs = [e for e in res.log if e["kind"] == "call" and e.get("atomic") == "fetch_sub"]
     ok = len(subs) == 1 and ordering_has(subs[0]["ordering"], "release") and subs[0]["operand"] == const(1) and "refs" in show(subs[0]["target"])
@@ -110,7 +110,7 @@ def o6(ctx):
 
 @rule("C12-O8", "C12", 1, "clone: the refcount increment is an atomic RMW by exactly 1 that dominates the copy of the handle")
 def o8(ctx):
-    b = ctx.facts.one(r"^<sync::Arena as std::clone::Clone>::clone$")
+    b = ctx.facts.one(r"^<sync::Arena as (?:std|core)::clone::Clone>::clone$")
     ev, res = ctx.eval(b)
     adds = [e for e in res.log if e["kind"] == "call" and e.get("atomic") == "fetch_add"]
     rets = [e for e in res.log if e["kind"] == "ret0" and not e["chain"]]
